@@ -400,7 +400,7 @@ fn main() {
         let mut def = CheckDef::new(
             "C20",
             "exploration",
-            "configuration enumeration on the freshly built binary: the COMPLETE option matrix {no mode, --human, --json, --cyborg P, --dump} x --brief x --pretty x --features {stable-basic, stable-all, unstable-all} x --output-file x --log-file x symbols {none, positional, --symbols-path} (720 configurations, --no-interactive alternating) on 2 inputs (quick) / all inputs (thorough), plus every input (corpus dumps, generated dumps, missing path, empty file, directory, garbage with a valid magic) under 8 spanning configurations, plus the clap-level conflicts. Oracle: exit status, primary output (stdout or --output-file) == in-process library output for the same options, --cyborg file == JSON, stdout empty with --output-file, rejected combinations / unreadable inputs -> exit 1 + diagnostic + no output, never 101/134/signal; raw dump output contains the library printers in order and does not depend on unrelated options. distinct_nontrivial = distinct (input, mode, brief, pretty, features, symbols, exit status, output hash).",
+            "configuration enumeration on the freshly built binary: the COMPLETE option matrix {no mode, --human, --json, --cyborg P, --dump} x --brief x --pretty x --features {stable-basic, stable-all, unstable-all} x --output-file x --log-file x symbols {none, positional, --symbols-path} (720 configurations, --no-interactive alternating) on 2 inputs (quick) / all inputs (thorough), plus every input (corpus dumps, generated dumps, missing path, empty file, directory, garbage with a valid magic) under 8 spanning configurations, plus the clap-level conflicts, plus every mode with an unwritable primary / cyborg output (/dev/full: must fail with a diagnostic, never exit 0). Oracle: exit status, primary output (stdout or --output-file) == in-process library output for the same options, --cyborg file == JSON, stdout empty with --output-file, rejected combinations / unreadable inputs -> exit 1 + diagnostic + no output, never 101/134/signal; raw dump output contains the library printers in order and does not depend on unrelated options. distinct_nontrivial = distinct (input, mode, brief, pretty, features, symbols, exit status, output hash).",
         );
         def.assumptions = vec![
             "expected reports are computed in-process by the same library code (release profile with overflow checks); C13 establishes that they are reproducible".into(),
@@ -458,6 +458,63 @@ fn main() {
                 }
             },
             move |i| json!({"args": k2[i as usize]}),
+        ));
+        // ---- a primary output that cannot be written (device full): exit 1 + diagnostic, never a silent success
+        let full_cases: Vec<(Vec<&'static str>, &'static str)> = vec![
+            (vec!["--human"], "output-file"),
+            (vec!["--human", "--brief"], "output-file"),
+            (vec!["--json"], "output-file"),
+            (vec!["--json", "--pretty"], "output-file"),
+            (vec!["--dump"], "output-file"),
+            (vec!["--dump", "--brief"], "output-file"),
+            (vec![], "cyborg-file"),
+            (vec!["--json"], "stdout"),
+            (vec!["--human"], "stdout"),
+            (vec!["--dump"], "stdout"),
+        ];
+        let full_cases = Arc::new(full_cases);
+        let (s4, f1, f2) = (sh.clone(), full_cases.clone(), full_cases.clone());
+        let n_in = sh.inputs.iter().filter(|i| matches!(i.kind, InputKind::Dump)).count().min(6) as u64;
+        def.spaces.push(Space::new(
+            "unwritable-output",
+            full_cases.len() as u64 * n_in,
+            move |i, l| {
+                let (mode, target) = &f1[(i % f1.len() as u64) as usize];
+                let inp = s4.inputs.iter().filter(|x| matches!(x.kind, InputKind::Dump)).nth((i / f1.len() as u64) as usize).expect("input");
+                let mut args: Vec<String> = vec!["--no-interactive".into()];
+                args.extend(mode.iter().map(|s| s.to_string()));
+                let mut cmd = std::process::Command::new(&s4.cli);
+                match *target {
+                    "output-file" => {
+                        args.push("--output-file".into());
+                        args.push("/dev/full".into());
+                    }
+                    "cyborg-file" => {
+                        args.push("--cyborg".into());
+                        args.push("/dev/full".into());
+                    }
+                    _ => {
+                        cmd.stdout(std::fs::OpenOptions::new().write(true).open("/dev/full").expect("open /dev/full"));
+                    }
+                }
+                args.push(inp.path.display().to_string());
+                let out = cmd.args(&args).stderr(std::process::Stdio::piped()).output().expect("spawn");
+                l.eval();
+                use std::os::unix::process::ExitStatusExt;
+                let code = out.status.code().unwrap_or(-1);
+                l.outcome(&format!("unwritable {target} -> exit {code}"));
+                l.distinct(&("full", i % f1.len() as u64, code));
+                let d = json!({"input": inp.name, "args": args, "unwritable": target});
+                // does the library produce a report for this input at all? (otherwise the failure is about the input)
+                if out.status.signal().is_some() || code == 101 || code == 134 {
+                    l.violation("c20:panic-or-signal-on-unwritable-output", format!("exit {code} / signal {:?} when the {target} cannot be written", out.status.signal()), d);
+                } else if code == 0 {
+                    l.violation("c20:success-reported-although-output-was-not-written", format!("the {target} is a full device, every write fails, yet the tool exits 0"), d);
+                } else if out.stderr.is_empty() {
+                    l.violation("c20:no-diagnostic", format!("unwritable {target}: exit {code} without a diagnostic"), d);
+                }
+            },
+            move |i| json!({"mode": f2[(i % f2.len() as u64) as usize].0, "unwritable": f2[(i % f2.len() as u64) as usize].1}),
         ));
         def
     })
